@@ -202,6 +202,8 @@ func (f *FibStrategyTree) ClearNextHopsEnc(name enc.Name) {
 	node := f.root.findExactMatchEntryEnc(name)
 	if node != nil {
 		node.nexthops = make([]*FibNextHopEntry, 0)
+		delete(f.fibPrefixes, name.Hash())
+		node.pruneIfEmpty()
 	}
 }
 
